@@ -5,6 +5,11 @@ import json, os
 ROOT = os.path.dirname(os.path.dirname(os.path.abspath(__file__)))
 
 CHECKS = {
+ "C16": dict(
+  technique="runtime monitor: reference-model oracle (insertion-ordered sequence + key map) over store API calls and Access/Apply instructions on built lists and concatenations",
+  text="Every list of length<=3 (4 thorough) over 7 item kinds exhaustively, plus random lists up to 24 (64) items and concatenations with adversarial distinct symbol keys; on both stores the monitor reads length, every index inside and outside, iteration order, and looks up every present key and several absent keys, directly and through the Access/Apply instructions, comparing each answer with the sequence/key-map model and flagging any error.",
+  note="keys are distinct per value; apply on concatenations and fractional indexes are outside the property",
+  design="DESIGN.md §5 C16"),
  "C08": dict(
   technique="runtime monitor: scripted-host event log (defer_op calls with arguments) + operand-depth shadow model, over the complete instruction x type-pair x host matrix",
   text="The finite matrix is enumerated completely every run: 31 binary and 10 unary instructions x every ordered pair of representative values of all 19 types x both stores x host absent/declining/accepting, each executed as a one-instruction program through execute_current_instruction under the delegating monitor. For cells in the pinned undefined set the monitor demands exactly one defer_op call with the operation and both (type,address) operands in source order, unit after a decline, the host's value after an accept and exactly one result; every cell is held to the generic clauses (at most one defer, UnsupportedOpTypes never escapes). Exhaustive over types and instructions; values within a type are representatives.",
